@@ -102,45 +102,50 @@ Theorem C12_pilot_state_monotone :
 Proof. exact run_mono. Qed.
 Print Assumptions C12_pilot_state_monotone.
 
-(* every report is absorbed: after a message that did not raise, the recorded
-   state of a pilot is at least as advanced as every state the message
-   reported for it (state notification, or document of an add_pilots command);
-   all _assign_pilot calls of the message see that recorded state *)
+(* every report is absorbed: after any message, the recorded state of a pilot
+   is at least as advanced as every state the message reported for it (state
+   notification -- also one carrying a contradicting final state, which is
+   skipped without dropping the rest of the batch -- or document of an
+   accepted add_pilots command); all _assign_pilot calls of the message see
+   that recorded state *)
 Theorem C12_reports_absorbed :
   forall (c : cfg) (s : st) (o : op) (s' : st) (ev : list event) (e : option serr),
     step c s o = (s', ev, e) ->
     QA (s_pilots s') ev /\
-    forall x, In x (reports_of false o e) -> snd x <= pval (stq (fst x) (s_pilots s')).
+    forall x, In x (reports_of o e) -> snd x <= pval (stq (fst x) (s_pilots s')).
 Proof. exact (fun c s o s' ev e H => proj2 (step_QA c s o s' ev e H)). Qed.
 Print Assumptions C12_reports_absorbed.
 
+(* a pilot state notification never leaves the component with an exception
+   (repository fix be30d79: the contradicting report is skipped) *)
+Theorem C12_pilot_notifications_never_raise :
+  forall (c : cfg) (s : st) ps (s' : st) (ev : list event) (e : option serr),
+    step c s (OPStates ps) = (s', ev, e) -> e = None.
+Proof. exact pstates_never_raise. Qed.
+Print Assumptions C12_pilot_notifications_never_raise.
+
 (* bound only to eligible pilots, w.r.t. the most advanced report: over any
    history, no task is placed by Backfilling on a pilot for which some report
-   so far (state notification or add document) lies beyond BF_STOP -- a pilot
-   once reported final never gets work again.  PARTIAL: reports of a state
-   notification batch that raised are not counted (see _refuted) *)
-Theorem C12_bound_only_to_eligible_partial :
-  forall (c : cfg) (ops : list op), ok_bf_eligible false c ops (run c st0 ops) = true.
-Proof. exact bf_eligible_partial. Qed.
-Print Assumptions C12_bound_only_to_eligible_partial.
+   so far (ANY state notification, or the document of an accepted add_pilots
+   command) lies beyond BF_STOP -- a pilot once reported final never gets work
+   again.  This is the oracle clause bound_only_to_eligible, unconditionally. *)
+Theorem C12_bound_only_to_eligible :
+  forall (c : cfg) (ops : list op), ok_bf_eligible c ops (run c st0 ops) = true.
+Proof. exact bf_eligible. Qed.
+Print Assumptions C12_bound_only_to_eligible.
 
-(* the strict form (the oracle clause: ALL reports count) holds for histories
-   in which no pilot state notification batch raised ... *)
-Theorem C12_bound_only_to_eligible_strict :
-  forall (c : cfg) (ops : list op),
-    pst_ok ops (run c st0 ops) = true -> ok_bf_eligible true c ops (run c st0 ops) = true.
-Proof. exact bf_eligible_strict. Qed.
-Print Assumptions C12_bound_only_to_eligible_strict.
-
-(* ... and is REFUTED in general on the code as it is: a contradictory final
-   notification (DONE -> CANCELED) raises ValueError in _update_pilot_states
-   and the rest of the batch -- here "pilot 2 is DONE" -- is dropped; pilot 2
-   then gets the task.  Witness = corpus/C12/bf-pilot-batch-aborted-by-valueerror.json *)
-Theorem C12_bound_only_to_eligible_refuted :
-  exists (c : cfg) (ops : list op),
-    c_kind c = BF /\ ok_bf_eligible true c ops (run c st0 ops) = false.
-Proof. exact bf_eligible_refuted. Qed.
-Print Assumptions C12_bound_only_to_eligible_refuted.
+(* regression (witness of the former refutation, before be30d79): the
+   contradicting final notification for pilot 1 no longer drops "pilot 2 is
+   DONE"; task 1 is NOT bound to pilot 2, it waits *)
+Example C12_batch_not_dropped :
+  let c := mkCfg BF 200 4 4 in
+  let ops := [OAdd TMine [(2, P_PMGR_ACTIVE, 4)]; OPStates [(1, P_DONE)];
+              OPStates [(1, P_CANCELED); (2, P_DONE)]; OSubmit [mkTask 1 None 1]] in
+  fwd_of (events_of (run c st0 ops)) = []
+  /\ waiting (fst (run_st c st0 ops)) = [1]
+  /\ stq 2 (s_pilots (fst (run_st c st0 ops))) = Some P_DONE
+  /\ stq 1 (s_pilots (fst (run_st c st0 ops))) = Some P_DONE.
+Proof. vm_compute. repeat split. Qed.
 
 (* backfilling usage accounting, full statement REFUTED on the code as it is:
    a history exists after which every task placed on a pilot has been reported
